@@ -145,6 +145,7 @@ func (t *tr) evCall(c *ast.CallExpr) []Term {
 		return t.havocResults(c)
 	}
 	con.Used = true
+	t.detCall(ct.key, con, c.Pos())
 	// `flag abstract_calls k1,k2` on the unit: these callees are over-approximated — any result, may panic,
 	// same frame — and their pre/postconditions are neither required nor used (sound for containment proofs)
 	if t.u.Contract != nil && t.u.Contract.Flags["abstract_calls"] != "" {
